@@ -836,8 +836,16 @@ def w23(ctx, rid):
         raise core.AnchorLost('calls of skip_wrong_record_data: %d' % n)
 
 
+def w24(ctx, rid):
+    """C13.L26 instance: after a clean close every index file describes its whole blob - the tools accept what the storage
+    produced and report every header of the blob"""
+    import props.c13 as c13
+    c13.l26(ctx, rid)
+
+
 RULES = [
     Rule('C16.W23', 'the offline reader skips record data only after a header validation failure', w23, 1),
+    Rule('C16.W24', 'after a clean close the index file of every closed blob is current (C13.L26 instance)', w24, 1),
     Rule('C16.W1', 'the tools\' record writer stamps its own position into blob_offset (and recomputes the header CRC) before serialising a header', w1, 1),
     Rule('C16.W2', 'the recovered output is re-validated whenever validation was requested', w2, 1),
     Rule('C16.W3', 'the tools never truncate their own input: input != output and header read precede the create; in-place recovery renames first', w3, 2),
